@@ -149,6 +149,8 @@ def shard_worker(job):
     return col.partial()
 
 
+SPECIAL_LIKE = [("run", "localhost.run", "x.localhost.run"), ("io", "nip.io", "10.0.0.1.nip.io"), ("com", "4.com", "1.2.3.4.com"),
+                ("localhosting.fr", "www.localhosting.fr", "fr"), ("1.2.3.4.5", "4.5", "0.1.2.3.4.5")]
 RICH = ["a", "B", "xn--bcher-kva", "bücher", "BÜCHER", "Xn--BCHER-KVA", "www", "co", "uk", "example", "été", "xn--t-9fab"]
 
 
@@ -188,6 +190,13 @@ def main():
         col.nontriv(("rnd", i))
         if i < 2:
             col.sample({"adds": list(hist), "queries": qs[:4]})
+    # ordinary hostnames that START like an address or like "localhost" (the quantifier only leaves out the hosts that ARE one)
+    for chain in SPECIAL_LIKE:
+        qs = list(chain) + ["y." + c for c in chain] + [c.upper() for c in chain]
+        for L in (1, 2):
+            for hist in itertools.permutations(chain, L):
+                check_history(col, hist, qs, FORMS[:2] + FORMS[3:5])
+                col.nontriv(("special-like", hist))
     col.sample({"adds": ["a.b", "b", "b.a.b"], "queries": "all hostnames of depth <= 4 over {a,b}, embedded in URL forms %r" % (FORMS,)})
     col.exhaustive = True
     col.bounds = {"add_sequence_length": maxlen, "hostname_depth": 3, "labels": list(LABELS), "query_depth": 4, "random_sequences": n}
